@@ -756,6 +756,11 @@ fn histories_for(ctx: &Ctx, o: &Opts, prop: &str, quick: bool) -> Vec<History> {
                 let seed = derive(o.seed, "C16", i as u64);
                 hs.push(gen::c16_random(ctx, &mut Rng::new(seed), seed, perms, i));
             }
+            // every listed prior state of the data directory: the start that recovers it, then a reopen
+            for (i, (tag, st)) in gen::c15_states(ctx, !quick).iter().enumerate() {
+                let seed = derive(o.seed, "C16-state", i as u64);
+                hs.push(gen::c16_state(ctx, tag, st, if quick { Perms::Identity } else { Perms::Reverse }, seed));
+            }
             for i in 0..n(16, 300) {
                 let seed = derive(o.seed, "C16-threads", i as u64);
                 hs.push(gen::c16_threads(ctx, &mut Rng::new(seed), seed, if quick { 120 } else { 2000 }));
@@ -771,7 +776,7 @@ fn histories_for(ctx: &Ctx, o: &Opts, prop: &str, quick: bool) -> Vec<History> {
                 let seed = derive(o.seed, "C18-recurrence", i as u64);
                 hs.push(gen::c18_recurrence(ctx, &pool, &mut Rng::new(seed), seed, quick));
             }
-            for i in 0..n(60, 3000) {
+            for i in 0..n(160, 6000) {
                 let seed = derive(o.seed, "C18-confusable", i as u64);
                 hs.push(gen::c18_confusable(ctx, &pool, &mut Rng::new(seed), seed));
             }
